@@ -32,6 +32,7 @@ const (
 	fkLock
 	fkAtomic
 	fkSkip
+	fkGroup // a struct-valued field of a struct type of this package: its fields are listed as "<name>.<field>"
 )
 
 type fieldInfo struct {
@@ -39,6 +40,8 @@ type fieldInfo struct {
 	typ      string
 	why      string
 	typeExpr ast.Expr
+	members  []string // fkGroup: the flattened leaves below it
+	promLock string   // fkGroup: the embedded mutex whose Lock/RLock… are promoted to the group ("st.RWMutex")
 }
 
 type accessRec struct {
@@ -130,6 +133,14 @@ type lockScanner struct {
 	scanned  []string                 // functions scanned (methods of the type, constructors, functions taking it)
 	funcs    map[string]*ast.FuncDecl // plain functions of the package
 	freshMem map[*ast.FuncDecl]int    // 0 unknown, 1 computing / no, 2 yes
+	leaves   []string                 // all non-group fields, flattened
+	embLock  string                   // a mutex embedded directly in the type: v.Lock() is v.<embLock>.Lock()
+}
+
+type closureArg struct {
+	lit     *ast.FuncLit
+	owner   *fnCtx // where the literal was written: its variables are the owner's
+	scanned bool
 }
 
 type loopCtx struct {
@@ -146,7 +157,12 @@ type fnCtx struct {
 	deferredUnlock map[string]bool      // locks released by a deferred Unlock: not held any more once the function has returned
 	retHeld        heldSet              // meet of the held sets at the return statements
 	hasRet         bool
-	closures       int // > 0 inside a function literal (its returns are not the function's)
+	closures       int                    // > 0 inside a function literal (its returns are not the function's)
+	lockAlias      map[string]string      // local mu := &v.L used only for direct Lock/Unlock calls: the lock L
+	unlockFns      map[string]string      // local u := v.L.Unlock (or u := v.lock() returning it): calling u releases L
+	retUnlock      string                 // this function returns the method value v.L.Unlock / RUnlock of lock L
+	lastCallUnlock string                 // the own-method call just inlined returned the unlock of this lock
+	funcParams     map[string]*closureArg // parameters bound to function literals of the caller (inlined own methods)
 	held           heldSet
 	published      bool // constructor started a goroutine: the object is visible to other threads from here on
 	noPrepub       int  // > 0 inside closures that may run after publication
@@ -265,6 +281,74 @@ func isTypeT(e ast.Expr, tn string) bool {
 	return ok && id.Name == tn
 }
 
+// addFields registers the fields of a struct type; struct-valued fields of struct types of this package are
+// flattened ("st.mode"), with a group entry for the struct itself.
+func (ls *lockScanner) addFields(prefix string, st *ast.StructType, depth int) []string {
+	var leaves []string
+	for _, f := range st.Fields.List {
+		names := f.Names
+		embedded := len(names) == 0
+		if embedded {
+			t := f.Type
+			if s, ok := t.(*ast.StarExpr); ok {
+				t = s.X
+			}
+			n := typeString(t)
+			if i := strings.LastIndex(n, "."); i >= 0 {
+				n = n[i+1:]
+			}
+			names = []*ast.Ident{ast.NewIdent(n)}
+		}
+		for _, n := range names {
+			full := prefix + n.Name
+			if prefix == "" {
+				ls.order = append(ls.order, full)
+			}
+			if id, ok := f.Type.(*ast.Ident); ok && depth < 3 {
+				if sub, ok := ls.pkgTypes[id.Name].(*ast.StructType); ok {
+					g := &fieldInfo{kind: fkGroup, typ: id.Name, typeExpr: f.Type}
+					ls.fields[full] = g
+					g.members = ls.addFields(full+".", sub, depth+1)
+					for _, m := range g.members {
+						if mi := ls.fields[m]; mi.kind == fkLock && strings.Count(m, ".") == strings.Count(full, ".")+1 && ls.isEmbedded(sub, m[len(full)+1:]) {
+							g.promLock = m
+						}
+					}
+					leaves = append(leaves, g.members...)
+					continue
+				}
+			}
+			k, why := classifyField(f.Type)
+			ls.fields[full] = &fieldInfo{kind: k, typ: typeString(f.Type), why: why, typeExpr: f.Type}
+			ls.leaves = append(ls.leaves, full)
+			leaves = append(leaves, full)
+			if embedded && prefix == "" && k == fkLock {
+				ls.embLock = full
+			}
+		}
+	}
+	return leaves
+}
+
+func (ls *lockScanner) isEmbedded(st *ast.StructType, name string) bool {
+	for _, f := range st.Fields.List {
+		if len(f.Names) == 0 {
+			t := f.Type
+			if s, ok := t.(*ast.StarExpr); ok {
+				t = s.X
+			}
+			n := typeString(t)
+			if i := strings.LastIndex(n, "."); i >= 0 {
+				n = n[i+1:]
+			}
+			if n == name {
+				return true
+			}
+		}
+	}
+	return false
+}
+
 func cmdLocks(repo, rel, typeName, mutexField string) error {
 	fset := token.NewFileSet()
 	path := filepath.Join(repo, rel)
@@ -284,8 +368,9 @@ func cmdLocks(repo, rel, typeName, mutexField string) error {
 			for _, sp := range gd.Specs {
 				ts := sp.(*ast.TypeSpec)
 				ls.pkgTypes[ts.Name.Name] = ts.Type
-				if ts.Name.Name == typeName && filepath.Base(fset.Position(ts.Pos()).Filename) == filepath.Base(path) {
-					if s, ok := ts.Type.(*ast.StructType); ok {
+				if ts.Name.Name == typeName {
+					// the type may live in any file of the package (the file named on the command line is only where it used to be)
+					if s, ok := ts.Type.(*ast.StructType); ok && (st == nil || filepath.Base(fset.Position(ts.Pos()).Filename) == filepath.Base(path)) {
 						st = s
 					}
 				}
@@ -293,27 +378,9 @@ func cmdLocks(repo, rel, typeName, mutexField string) error {
 		}
 	}
 	if st == nil {
-		return fmt.Errorf("struct type %s not found in %s", typeName, rel)
+		return fmt.Errorf("struct type %s not found in package %s", typeName, filepath.Dir(rel))
 	}
-	for _, f := range st.Fields.List {
-		names := f.Names
-		if len(names) == 0 { // embedded
-			t := f.Type
-			if s, ok := t.(*ast.StarExpr); ok {
-				t = s.X
-			}
-			n := typeString(t)
-			if i := strings.LastIndex(n, "."); i >= 0 {
-				n = n[i+1:]
-			}
-			names = []*ast.Ident{ast.NewIdent(n)}
-		}
-		for _, n := range names {
-			k, why := classifyField(f.Type)
-			ls.fields[n.Name] = &fieldInfo{kind: k, typ: typeString(f.Type), why: why, typeExpr: f.Type}
-			ls.order = append(ls.order, n.Name)
-		}
-	}
+	ls.addFields("", st, 0)
 	if mutexField != "-" {
 		fi, ok := ls.fields[mutexField]
 		if !ok || fi.kind != fkLock {
@@ -390,7 +457,7 @@ func cmdLocks(repo, rel, typeName, mutexField string) error {
 	// output
 	fmt.Printf("(* glbfacts locks %s %s %s\n", rel, typeName, mutexField)
 	var plain, skipped []string
-	for _, n := range ls.order {
+	for _, n := range ls.leaves {
 		fi := ls.fields[n]
 		switch fi.kind {
 		case fkLock, fkSkip:
@@ -445,6 +512,12 @@ func (ls *lockScanner) emit(c *fnCtx, at ast.Node, varName, field string, write,
 	if fi == nil || fi.kind == fkLock || fi.kind == fkSkip {
 		return
 	}
+	if fi.kind == fkGroup { // the struct as a whole: every field below it
+		for _, m := range fi.members {
+			ls.emit(c, at, varName, m, write, atomic)
+		}
+		return
+	}
 	v := c.vars[varName]
 	prepub := v != nil && v.fresh && !c.published && c.noPrepub == 0
 	held := c.held
@@ -489,14 +562,24 @@ func (ls *lockScanner) add(a accessRec) {
 
 // trackedField: e is `v.f` with v a tracked variable and f a field of the type.
 func (ls *lockScanner) trackedField(c *fnCtx, e ast.Expr) (string, string, bool) {
-	se, ok := e.(*ast.SelectorExpr)
-	if !ok {
+	// v.a.b…: a selector chain from a tracked variable whose full path names a (flattened) field
+	var names []string
+	x := e
+	for {
+		se, ok := x.(*ast.SelectorExpr)
+		if !ok {
+			break
+		}
+		names = append([]string{se.Sel.Name}, names...)
+		x = se.X
+	}
+	if len(names) == 0 {
 		return "", "", false
 	}
-	id, ok := se.X.(*ast.Ident)
+	id, ok := x.(*ast.Ident)
 	if !ok {
 		// (*v).f
-		if p, ok2 := se.X.(*ast.ParenExpr); ok2 {
+		if p, ok2 := x.(*ast.ParenExpr); ok2 {
 			if s, ok3 := p.X.(*ast.StarExpr); ok3 {
 				id, ok = s.X.(*ast.Ident)
 			}
@@ -508,10 +591,11 @@ func (ls *lockScanner) trackedField(c *fnCtx, e ast.Expr) (string, string, bool)
 	if _, t := c.vars[id.Name]; !t {
 		return "", "", false
 	}
-	if _, f := ls.fields[se.Sel.Name]; !f {
+	full := strings.Join(names, ".")
+	if _, f := ls.fields[full]; !f {
 		return "", "", false
 	}
-	return id.Name, se.Sel.Name, true
+	return id.Name, full, true
 }
 
 // lvalueRoot strips index / deref / paren / inner selectors; index expressions are read.
@@ -622,7 +706,8 @@ func (ls *lockScanner) valueAliasOf(c *fnCtx, e ast.Expr) (string, string, bool)
 		return "", "", false
 	}
 	if v, f, ok := ls.lvalueRootQuiet(c, e); ok {
-		if fi := ls.fields[f]; fi != nil && (fi.kind == fkPlain) && ls.mayRef(fi.typeExpr, 0) {
+		// a slice of the field (v.f[:n]) shares its memory whatever the element type is
+		if fi := ls.fields[f]; fi != nil && (fi.kind == fkPlain) && (ls.mayRef(fi.typeExpr, 0) || hasSlice(e)) {
 			return v, f, true
 		}
 		return "", "", false
@@ -668,7 +753,7 @@ func (c *fnCtx) setAlias(name, v, f string, value bool) {
 
 // emitAllReads: *v (a struct copy) reads every field of v; copying the lock itself cannot be classified
 func (ls *lockScanner) emitAllReads(c *fnCtx, at ast.Node, v string) {
-	for _, f := range ls.order {
+	for _, f := range ls.leaves {
 		fi := ls.fields[f]
 		switch fi.kind {
 		case fkPlain, fkAtomic:
@@ -890,9 +975,42 @@ func (ls *lockScanner) scanStmt(c *fnCtx, s ast.Stmt) {
 			}
 		}
 	case *ast.AssignStmt:
+		handled := map[int]bool{}
 		for i, r := range t.Rhs {
 			if len(t.Lhs) == len(t.Rhs) {
 				if id, ok := t.Lhs[i].(*ast.Ident); ok {
+					if l, ok := ls.lockAddr(c, r); ok {
+						// mu := &v.L: the same lock as long as mu is only used for mu.Lock() / mu.Unlock() …
+						if c.lockAlias == nil {
+							c.lockAlias = map[string]string{}
+						}
+						c.lockAlias[id.Name] = l
+						handled[i] = true
+						continue
+					}
+					if l, ok := ls.unlockValue(c, r); ok {
+						// unlock := v.L.Unlock: calling it later releases L
+						if c.unlockFns == nil {
+							c.unlockFns = map[string]string{}
+						}
+						c.unlockFns[id.Name] = l
+						handled[i] = true
+						continue
+					}
+					if _, isCall := r.(*ast.CallExpr); isCall {
+						// unlock := v.lock() where the own method returns v.L.Unlock
+						c.lastCallUnlock = ""
+						ls.scanExpr(c, r)
+						if c.lastCallUnlock != "" {
+							if c.unlockFns == nil {
+								c.unlockFns = map[string]string{}
+							}
+							c.unlockFns[id.Name] = c.lastCallUnlock
+							c.lastCallUnlock = ""
+							handled[i] = true
+						}
+						continue
+					}
 					if v, f, ok := ls.addressOfField(c, r); ok {
 						// p := &v.f[...]: follow the pointer inside this function instead of giving up
 						if c.ptrs == nil {
@@ -932,6 +1050,11 @@ func (ls *lockScanner) scanStmt(c *fnCtx, s ast.Stmt) {
 		}
 		for i, l := range t.Lhs {
 			if id, ok := l.(*ast.Ident); ok {
+				if handled[i] {
+					continue
+				}
+				delete(c.lockAlias, id.Name)
+				delete(c.unlockFns, id.Name)
 				var rhs ast.Expr
 				if len(t.Lhs) == len(t.Rhs) {
 					rhs = t.Rhs[i]
@@ -994,6 +1117,15 @@ func (ls *lockScanner) scanStmt(c *fnCtx, s ast.Stmt) {
 					ls.emitUnknown(c, r, pf[1], "pointer to the field returned")
 					continue
 				}
+				if l, ok := c.unlockFns[id.Name]; ok && c.closures == 0 && len(c.stack) > 1 {
+					c.retUnlock = l
+					continue
+				}
+			}
+			if l, ok := ls.unlockValue(c, r); ok && c.closures == 0 && len(c.stack) > 1 {
+				// func (v *T) lock() func() { v.L.Lock(); return v.L.Unlock }: handed to the caller (defer v.lock()())
+				c.retUnlock = l
+				continue
 			}
 			ls.scanExpr(c, r)
 		}
@@ -1026,6 +1158,30 @@ func (ls *lockScanner) scanStmt(c *fnCtx, s ast.Stmt) {
 			ls.scanStmt(c, t.Post)
 		})
 	case *ast.RangeStmt:
+		if u, ok := t.X.(*ast.UnaryExpr); ok && u.Op == token.AND {
+			if v, f, ok := ls.lvalueRootQuiet(c, u.X); ok && (ls.fields[f].kind == fkPlain || ls.fields[f].kind == fkGroup) {
+				// for i, x := range &v.f: iterates the array in place — a read of the field
+				ls.emit(c, t.X, v, f, false, false)
+				ls.scanIndexParts(c, u.X)
+				if t.Tok == token.DEFINE && t.Value != nil {
+					if id, ok := t.Value.(*ast.Ident); ok && id.Name != "_" && ls.mayRef(ls.fields[f].typeExpr, 0) {
+						c.setAlias(id.Name, v, f, true)
+					}
+				}
+				ls.loop(c, func() {
+					if t.Tok == token.ASSIGN {
+						if t.Key != nil {
+							ls.scanLvalue(c, t.Key)
+						}
+						if t.Value != nil {
+							ls.scanLvalue(c, t.Value)
+						}
+					}
+					ls.scanBlock(c, t.Body)
+				})
+				return
+			}
+		}
 		ls.scanExpr(c, t.X)
 		if t.Tok == token.DEFINE && t.Value != nil {
 			if id, ok := t.Value.(*ast.Ident); ok && id.Name != "_" {
@@ -1171,6 +1327,33 @@ func (ls *lockScanner) scanDeferredOrGo(c *fnCtx, call *ast.CallExpr, isDefer bo
 			return
 		}
 	}
+	if isDefer {
+		markDeferred := func(l string) {
+			if c.closures == 0 {
+				if c.deferredUnlock == nil {
+					c.deferredUnlock = map[string]bool{}
+				}
+				c.deferredUnlock[l] = true
+			}
+		}
+		if inner, ok := call.Fun.(*ast.CallExpr); ok && len(call.Args) == 0 {
+			// defer v.lock()(): v.lock() runs now and returns the unlock, which runs at the end
+			c.lastCallUnlock = ""
+			ls.scanExpr(c, inner)
+			if l := c.lastCallUnlock; l != "" {
+				c.lastCallUnlock = ""
+				markDeferred(l)
+				return
+			}
+			return // an unknown function value deferred: its call was scanned, what it returns runs at the end unseen
+		}
+		if id, ok := call.Fun.(*ast.Ident); ok && len(call.Args) == 0 {
+			if l, isU := c.unlockFns[id.Name]; isU { // defer unlock()
+				markDeferred(l)
+				return
+			}
+		}
+	}
 	for _, a := range call.Args {
 		ls.scanExpr(c, a)
 	}
@@ -1199,21 +1382,98 @@ func (ls *lockScanner) scanDeferredOrGo(c *fnCtx, call *ast.CallExpr, isDefer bo
 }
 
 // lockOp: call is v.<lockfield>.<Lock|Unlock|RLock|RUnlock|TryLock|TryRLock>()
+var lockMethods = map[string]bool{"Lock": true, "Unlock": true, "RLock": true, "RUnlock": true, "TryLock": true, "TryRLock": true}
+
+// lockRef: e denotes a mutex of a tracked variable: v.L, v.st (group with a promoted lock), v itself (mutex embedded
+// in the type), or a local alias mu := &v.L
+func (ls *lockScanner) lockRef(c *fnCtx, e ast.Expr) (string, string, bool) {
+	if p, ok := e.(*ast.ParenExpr); ok {
+		e = p.X
+	}
+	if id, ok := e.(*ast.Ident); ok {
+		if l, ok := c.lockAlias[id.Name]; ok {
+			return "", l, true
+		}
+		if vi := c.vars[id.Name]; vi != nil && ls.embLock != "" && !vi.copy {
+			return id.Name, ls.embLock, true
+		}
+		return "", "", false
+	}
+	v, f, ok := ls.trackedField(c, e)
+	if !ok {
+		return "", "", false
+	}
+	fi := ls.fields[f]
+	if fi.kind == fkGroup && fi.promLock != "" {
+		f, fi = fi.promLock, ls.fields[fi.promLock]
+	}
+	if fi.kind != fkLock {
+		return "", "", false
+	}
+	if vi := c.vars[v]; vi != nil && vi.copy {
+		if _, ptr := fi.typeExpr.(*ast.StarExpr); !ptr {
+			return "", "", false // the copy's own mutex protects nothing of the original
+		}
+	}
+	return v, f, true
+}
+
 func (ls *lockScanner) lockOp(c *fnCtx, call *ast.CallExpr) (string, string, string, bool) {
 	se, ok := call.Fun.(*ast.SelectorExpr)
+	if !ok || !lockMethods[se.Sel.Name] {
+		return "", "", "", false
+	}
+	v, f, ok := ls.lockRef(c, se.X)
 	if !ok {
 		return "", "", "", false
 	}
-	v, f, ok := ls.trackedField(c, se.X)
-	if !ok || ls.fields[f].kind != fkLock {
-		return "", "", "", false
+	return v, f, se.Sel.Name, true
+}
+
+// unlockValue: e is the method value v.L.Unlock / v.L.RUnlock (not called)
+func (ls *lockScanner) unlockValue(c *fnCtx, e ast.Expr) (string, bool) {
+	se, ok := e.(*ast.SelectorExpr)
+	if !ok || (se.Sel.Name != "Unlock" && se.Sel.Name != "RUnlock") {
+		return "", false
 	}
-	if vi := c.vars[v]; vi != nil && vi.copy {
-		if _, ptr := ls.fields[f].typeExpr.(*ast.StarExpr); !ptr {
-			return "", "", "", false // the copy's own mutex protects nothing of the original
+	_, f, ok := ls.lockRef(c, se.X)
+	return f, ok
+}
+
+// lockAddr: e is &v.L, or v.L for a pointer-typed lock field
+func (ls *lockScanner) lockAddr(c *fnCtx, e ast.Expr) (string, bool) {
+	if u, ok := e.(*ast.UnaryExpr); ok && u.Op == token.AND {
+		if _, isId := u.X.(*ast.Ident); isId {
+			return "", false
+		}
+		_, f, ok := ls.lockRef(c, u.X)
+		return f, ok
+	}
+	if _, isId := e.(*ast.Ident); isId {
+		return "", false
+	}
+	if _, f, ok := ls.lockRef(c, e); ok {
+		if _, ptr := ls.fields[f].typeExpr.(*ast.StarExpr); ptr {
+			return f, true
 		}
 	}
-	return v, f, se.Sel.Name, true
+	return "", false
+}
+
+// runClosure scans a function literal of the caller that an inlined own method calls (f.update(func(){…})):
+// with the variables of where it was written and the locks held where it is called.
+func (ls *lockScanner) runClosure(ca *closureArg, held heldSet) {
+	o := ca.owner
+	saved := o.held
+	o.held = held.clone()
+	if o.held == nil {
+		o.held = heldSet{}
+	}
+	o.closures++
+	ls.scanBlock(o, ca.lit.Body)
+	o.closures--
+	o.held = saved
+	ca.scanned = true
 }
 
 var atomicWriteMethods = map[string]bool{"Store": true, "Add": true, "Swap": true, "CompareAndSwap": true, "And": true, "Or": true}
@@ -1325,8 +1585,41 @@ func (ls *lockScanner) inlineMethod(c *fnCtx, call *ast.CallExpr) bool {
 			}
 		}
 	}
+	// function literals of the caller handed to the callee: scanned where the callee calls them
+	var bound []*closureArg
+	if md.Type.Params != nil {
+		i := 0
+		for _, p := range md.Type.Params.List {
+			for _, n := range p.Names {
+				if i < len(call.Args) {
+					if fl, ok := call.Args[i].(*ast.FuncLit); ok {
+						if sub.funcParams == nil {
+							sub.funcParams = map[string]*closureArg{}
+						}
+						ca := &closureArg{lit: fl, owner: c}
+						sub.funcParams[n.Name] = ca
+						bound = append(bound, ca)
+					} else if aid, ok := call.Args[i].(*ast.Ident); ok && c.funcParams[aid.Name] != nil {
+						if sub.funcParams == nil {
+							sub.funcParams = map[string]*closureArg{}
+						}
+						sub.funcParams[n.Name] = c.funcParams[aid.Name]
+					}
+				}
+				i++
+			}
+		}
+	}
 	before := c.held
 	ls.scanBlock(sub, md.Body)
+	for _, ca := range bound {
+		if !ca.scanned { // never called by the callee as far as the scan can see: runs at an unknown time
+			c.noPrepub++
+			ls.runClosure(ca, heldSet{})
+			c.noPrepub--
+		}
+	}
+	c.lastCallUnlock = sub.retUnlock
 	// the callee's net effect on the locks: what it holds where it returns (at the end of its body and at its
 	// return statements), minus what its deferred Unlocks release — f.lock() takes a lock for the caller, a
 	// callee may also release the caller's
@@ -1395,6 +1688,19 @@ func (ls *lockScanner) scanExpr(c *fnCtx, e ast.Expr) {
 			if pf, ok := c.ptrs[t.Name]; ok {
 				ls.emit(c, t, pf[0], pf[1], false, false) // use of p / *p / p[i] / p.x: a read through the pointer
 			}
+			if l, ok := c.lockAlias[t.Name]; ok {
+				// every mu.Lock() / mu.Unlock() / defer mu.Unlock() was taken before getting here: the alias escapes
+				ls.emitLockEscape(c, t, l, "a local alias of the lock is passed on, stored or returned")
+			}
+			if l, ok := c.unlockFns[t.Name]; ok {
+				ls.emitLockEscape(c, t, l, "the unlock function of the lock is passed on, stored or returned")
+			}
+			if ca := c.funcParams[t.Name]; ca != nil {
+				// the caller's function literal handed on as a value (go fn(), defer fn(), stored): runs at an unknown time
+				c.noPrepub++
+				ls.runClosure(ca, heldSet{})
+				c.noPrepub--
+			}
 			return true
 		case *ast.KeyValueExpr:
 			ls.scanExpr(c, t.Value) // not the key (a field name in struct literals)
@@ -1456,8 +1762,32 @@ func (ls *lockScanner) lvalueRootQuiet(c *fnCtx, e ast.Expr) (string, string, bo
 			e = t.X
 		case *ast.SelectorExpr:
 			e = t.X
+		case *ast.Ident:
+			if pf, ok := c.ptrs[t.Name]; ok { // rooted at a local alias: list := v.f[:n]; &list[i]
+				return pf[0], pf[1], true
+			}
+			return "", "", false
 		default:
 			return "", "", false
+		}
+	}
+}
+
+func hasSlice(e ast.Expr) bool {
+	for {
+		switch t := e.(type) {
+		case *ast.SliceExpr:
+			return true
+		case *ast.ParenExpr:
+			e = t.X
+		case *ast.IndexExpr:
+			e = t.X
+		case *ast.StarExpr:
+			e = t.X
+		case *ast.SelectorExpr:
+			e = t.X
+		default:
+			return false
 		}
 	}
 }
@@ -1540,6 +1870,21 @@ func (ls *lockScanner) scanCall(c *fnCtx, call *ast.CallExpr) bool {
 		}
 		return false
 	}
+	if id, ok := call.Fun.(*ast.Ident); ok {
+		if l, isU := c.unlockFns[id.Name]; isU { // unlock()
+			if c.held != nil {
+				delete(c.held, l)
+			}
+			return false
+		}
+		if ca := c.funcParams[id.Name]; ca != nil { // fn(): the caller's function literal runs here, under our locks
+			for _, a := range call.Args {
+				ls.scanArg(c, a)
+			}
+			ls.runClosure(ca, c.held)
+			return false
+		}
+	}
 	switch fun := call.Fun.(type) {
 	case *ast.SelectorExpr:
 		// 2. v.f.M(...)
@@ -1587,6 +1932,9 @@ func (ls *lockScanner) scanCall(c *fnCtx, call *ast.CallExpr) bool {
 		if id, ok := fun.X.(*ast.Ident); ok && c.vars[id.Name] != nil {
 			if _, isField := ls.fields[fun.Sel.Name]; !isField {
 				for _, a := range call.Args {
+					if _, isLit := a.(*ast.FuncLit); isLit && ls.methods[fun.Sel.Name] != nil {
+						continue // bound to the callee's parameter, scanned where the callee calls it
+					}
 					ls.scanArg(c, a)
 				}
 				ls.inlineMethod(c, call)
